@@ -1,7 +1,9 @@
 #!/bin/sh
-# Offline setup: make sure hypothesis is importable in /venv (no-op on this image).
+# Offline setup: make sure hypothesis is importable in /venv (no-op on this image) and build the
+# C++ spec reader from the working tree's sources (used by C14; rebuilt lazily when the sources change).
 set -e
 cd "$(dirname "$0")"
 /venv/bin/python -c "import hypothesis" 2>/dev/null || \
   /venv/bin/pip install --no-index --find-links /opt/veriftools/wheels hypothesis
 /venv/bin/python -c "import hypothesis, sys; print('hypothesis', hypothesis.__version__)"
+./tools/build_cpp.sh /repo
